@@ -25,6 +25,7 @@ type simConn struct {
 	wake     chan struct{}
 	stamp    *int64
 	start    time.Time
+	notify   chan struct{} // driver wake-up: the broker wrote or closed
 	// counters for oracles
 	writesAfterClose int
 	bytesOut         int64
@@ -46,8 +47,15 @@ func (timeoutErr) Temporary() bool { return true }
 var errReset = errors.New("connection reset by peer")
 var errClosed = errors.New("use of closed network connection")
 
-func newSimConn(stamp *int64, start time.Time) *simConn {
-	return &simConn{wake: make(chan struct{}, 1), stamp: stamp, start: start}
+func newSimConn(stamp *int64, start time.Time, notify chan struct{}) *simConn {
+	return &simConn{wake: make(chan struct{}, 1), stamp: stamp, start: start, notify: notify}
+}
+
+func (c *simConn) tell() {
+	select {
+	case c.notify <- struct{}{}:
+	default:
+	}
 }
 
 func (c *simConn) poke() {
@@ -119,6 +127,7 @@ func (c *simConn) Write(p []byte) (int, error) {
 	}
 	c.out = append(c.out, outChunk{b: append([]byte(nil), p...), stamp: atomic.AddInt64(c.stamp, 1), atMs: time.Since(c.start).Milliseconds()})
 	c.bytesOut += int64(len(p))
+	c.tell()
 	return len(p), nil
 }
 
@@ -130,6 +139,7 @@ func (c *simConn) Close() error {
 	}
 	c.mu.Unlock()
 	c.poke()
+	c.tell()
 	return nil
 }
 
